@@ -64,12 +64,15 @@ def run(chk):
     chk.prove()
     rng = chk.rng
     progs = []      # (source, model_ops or None, kind)
+    life_ops = {}   # program index -> operation list for the reference-counting model (destructor programs)
     for _ in range(260 if chk.thorough else 60):
         hp = heapgen.HeapProgram(rng, dtor=False)
         progs.append((hp.source(), hp.model_ops(), "heap"))
     for _ in range(160 if chk.thorough else 30):
         hp = heapgen.HeapProgram(rng, dtor=True)
         progs.append((hp.source(), None, "heap+dtor"))
+        if not any(o[0] in ("hold", "pendq") for o in hp.ops):
+            life_ops[len(progs) - 1] = hp.model_ops()
     for _ in range(200 if chk.thorough else 40):
         cp = classgen.ClassProgram(rng, depth=rng.choice([2, 3, 4]), churn=True)
         progs.append((cp.source(), None, "class"))
@@ -118,6 +121,27 @@ def run(chk):
         chk.count((pi, sc))
         if observable(a) != observable(base[pi]) and bad is None:
             bad = (src, sc, base[pi], a, kind)
+    # destructor programs under every schedule against the reference-counting + collector model, which
+    # Props/C11.schedule_unobservable_with_destructors proves schedule-independent: body lines in order, the deaths at the end of main as a multiset
+    life_model = dict(zip(life_ops, driver(["life " + life_ops[pi] for pi in life_ops])[0])) if life_ops else {}
+    life_sched = driver(["lifegc %s %s" % (life_ops[pi], sc) for (pi, sc) in meta if pi in life_ops])[0] if life_ops else []
+    li = 0
+    life_bad = None
+    for (pi, sc), a in zip(meta, impl):
+        if pi not in life_ops:
+            continue
+        m = life_model[pi]
+        ms = life_sched[li]
+        li += 1
+        if ms != m and model_bad is None:
+            model_bad = (life_ops[pi], sc, m, ms)
+        got = evallib.split_result(a).get("echo_lines") if a.startswith("ok ") else [a[:80]]
+        body, _, fin = m[len("trace "):].partition(" ## ")
+        wb = body.split("|") if body else []
+        wf = sorted(fin.split("|")) if fin else []
+        if not (got[:len(wb)] == wb and sorted(got[len(wb):]) == wf) and life_bad is None:
+            life_bad = (progs[pi][0], sc, got, wb, wf, life_ops[pi])
+    kinds["heap+dtor vs refcount+collector model"] = len(life_ops)
     chk.extra["input_distribution"] = kinds
     chk.extra["harness_incident"] = str(incident)[:300] if incident else ""
     chk.sample({"schedule": meta[3][1][:40], "program": progs[0][0][-400:]})
@@ -133,6 +157,10 @@ def run(chk):
     elif dis:
         src, mops, a, m = dis
         chk.violation("heap machine and real pipeline disagree: impl=%s model=%s" % (a[:200], m[:200]), {"source": src, "model_ops": mops, "schedule": "none", "kind": "program+schedule"})
+    elif life_bad:
+        src, sc, got, wb, wf, mops = life_bad
+        chk.violation("destructor program under schedule %s prints %s; reference counting with the collector (any schedule) prescribes %s then, in any order, %s"
+                      % (sc[:60], got, wb, wf), {"source": src, "schedule": sc, "model_line": "life " + mops, "kind": "program+schedule"})
     elif model_bad:
         chk.violation("the heap model itself is schedule-dependent on %s under %s: %s vs %s" % model_bad, {"model_ops": model_bad[0], "schedule": model_bad[1], "kind": "model"}, found_input=False)
 
